@@ -37,11 +37,42 @@ class VEnumerate(Value):
         self.inner = inner
 
 
+def const_map(mshape, value_expr):
+    """a pure map (curried arrays) with the same value everywhere"""
+    comps = []
+    for sfx, srt in mshape.comps():
+        a = value_expr
+        s = srt
+        doms = []
+        while isinstance(s, z3.ArraySortRef):
+            doms.append(s.domain())
+            s = s.range()
+        for d in reversed(doms):
+            a = z3.K(d, a)
+        comps.append(a)
+    return SMap(mshape, comps)
+
+
+def cnt_get(ex, obj, v):
+    """occurrences of v in the list (ghost multiset view; always >= 0)"""
+    cnt = ex.path.read_field(obj, 'cnt')
+    c = cnt.shape.select(cnt, v)
+    ex.path.assume(c.e >= 0)
+    return c
+
+
+def cnt_add(ex, obj, v, delta):
+    cnt = ex.path.read_field(obj, 'cnt')
+    c = cnt.shape.select(cnt, v)
+    ex.path.write_field(obj, 'cnt', cnt.shape.store(cnt, v, SV(IntS, c.e + delta)))
+
+
 def alloc_container(ex, shape):
     obj = SRef(shape, ex.path.new_id())
     info = CONTAINERS[shape.cls]
     if info[0] == 'list':
         ex.path.write_field(obj, 'len', mk_int(0))
+        ex.path.write_field(obj, 'cnt', const_map(container_fields(shape.cls)['cnt'], z3.IntVal(0)))
     else:
         ex.path.write_field(obj, 'size', mk_int(0))
         has_shape = container_fields(shape.cls)['has']
@@ -50,7 +81,7 @@ def alloc_container(ex, shape):
             a = z3.BoolVal(False)
             s = srt
             doms = []
-            while z3.is_array_sort(s):
+            while isinstance(s, z3.ArraySortRef):
                 doms.append(s.domain())
                 s = s.range()
             for d in reversed(doms):
@@ -268,7 +299,79 @@ def b_next(ex, args, kw):
         if len(args) > 1:
             return args[1]
         ex.raise_('StopIteration')
+    if type(it).__name__ == 'VGen':
+        return next_of_gen(ex, it, args[1] if len(args) > 1 else None)
     raise Unsupported('next() of %r' % (it,))
+
+
+def next_of_gen(ex, gen, default):
+    """next(<generator over a symbolic list / enumerate>, default): either
+    some element satisfies the filter -- the first such, of which only "it
+    satisfies the filter" is used (sound over-approximation of *which* one) --
+    or none does and the default is returned"""
+    P = ex.path
+    seq = gen.seq
+    lst = seq.inner if type(seq).__name__ == 'VEnumerate' else seq
+    if not (isinstance(lst, SRef) and lst.shape.cls in CONTAINERS and CONTAINERS[lst.shape.cls][0] == 'list'):
+        raise Unsupported('next() of a generator over %r' % (seq,))
+    ln = P.read_field(lst, 'len').e
+    if P.choose(2) == 0:
+        k = z3.Int(fresh_name('first'))
+        P.assume(z3.And(k >= 0, k < ln))
+        item, cond, elt = gen.element(ex, k)
+        P.assume(cond)
+        v = elt()
+        P._assume_wf(v)
+        return v
+    j = z3.Int(fresh_name('j'))
+    item, cond, elt = gen.element(ex, j)
+    P.assume(z3.ForAll([j], z3.Implies(z3.And(j >= 0, j < ln), z3.Not(cond))))
+    if default is None:
+        ex.raise_('StopIteration')
+    return default
+
+
+def b_set(ex, args, kw):
+    """set(<generator `k for k in S if cond(k)` over a set/dict>): the subset"""
+    if not args:
+        raise Unsupported('set() without a declared local shape')
+    gen = args[0]
+    if type(gen).__name__ != 'VGen':
+        raise Unsupported('set() of %r' % (gen,))
+    src = gen.seq
+    if type(src).__name__ == 'VView':
+        src = src.d
+    if not (isinstance(src, SRef) and src.shape.cls in CONTAINERS and CONTAINERS[src.shape.cls][0] in ('set', 'dict')):
+        raise Unsupported('set() of a generator over %r' % (src,))
+    g = gen.node.generators[0]
+    import ast as _ast
+    if not (isinstance(gen.node.elt, _ast.Name) and isinstance(g.target, _ast.Name) and gen.node.elt.id == g.target.id):
+        raise Unsupported('set(f(k) for k in ...) with f other than the identity')
+    P = ex.path
+    kshape = CONTAINERS[src.shape.cls][1]
+    from .shapes import set_of
+    new = alloc_container(ex, set_of(kshape))
+    has_src = P.read_field(src, 'has')
+    key = kshape.fresh('k')
+    qs = kshape.unpack(key)
+    item, cond, elt = gen.element(ex, key)
+    fresh_has = has_src.shape.fresh('subset')
+    P.assume(z3.ForAll(qs, fresh_has.shape.select(fresh_has, key).e ==
+                       z3.And(has_src.shape.select(has_src, key).e, cond)))
+    P.write_field(new, 'has', fresh_has)
+    P.write_field(new, 'size', IntS.fresh('subset_size'))
+    return new
+
+
+def ext_copy_copy(ex, args, kw):
+    """copy.copy(d) of a dict/set/list: a new container with the same contents"""
+    v = args[0]
+    if isinstance(v, SRef) and v.shape.cls in CONTAINERS:
+        new = SRef(v.shape, ex.path.new_id())
+        for f in container_fields(v.shape.cls):
+            ex.path.write_field(new, f, ex.path.read_field(v, f))
+        return new
+    raise Unsupported('copy.copy of %r' % (v,))
 
 
 def b_enumerate(ex, args, kw):
@@ -352,6 +455,7 @@ def b_anyall(is_all):
 
 
 BUILTINS = {
+    'set': b_set,
     'len': b_len, 'min': b_minmax(True), 'max': b_minmax(False), 'abs': b_abs,
     'bool': b_bool, 'int': b_int, 'float': b_float, 'isinstance': b_isinstance,
     'getattr': b_getattr, 'hasattr': b_hasattr, 'range': b_range,
@@ -377,26 +481,30 @@ def container_method(ex, obj, name, args, kw):
             v = coerce(P, args[0], elem)
             P.write_field(obj, 'items', items.shape.store(items, SV(IntS, ln), v))
             P.write_field(obj, 'len', SV(IntS, ln + 1))
+            cnt_add(ex, obj, v, 1)
             return SNone()
         if name == 'appendleft':
             v = coerce(P, args[0], elem)
             new = items.shape.fresh('appl')
             k = z3.Int(fresh_name('k'))
-            P.assume(z3.ForAll([k], z3.Implies(z3.And(k >= 0, k < ln), ex.eq(
-                new.shape.select(new, SV(IntS, k + 1)), items.shape.select(items, SV(IntS, k))))))
+            P.assume(z3.ForAll([k], z3.Implies(z3.And(k >= 1, k < ln + 1), ex.eq(
+                new.shape.select(new, SV(IntS, k)), items.shape.select(items, SV(IntS, k - 1))))))
             new = new.shape.store(new, mk_int(0), v)
             P.write_field(obj, 'items', new)
             P.write_field(obj, 'len', SV(IntS, ln + 1))
+            cnt_add(ex, obj, v, 1)
             return SNone()
         if name == 'pop' and not args:
-            if P.decide(ln == 0):
+            if P.decide(ln <= 0):
                 ex.raise_('IndexError', 'pop from empty list')
             v = items.shape.select(items, SV(IntS, ln - 1))
+            P.assume(cnt_get(ex, obj, v).e >= 1)       # an element of the list occurs in it
             P.write_field(obj, 'len', SV(IntS, ln - 1))
+            cnt_add(ex, obj, v, -1)
             P._assume_wf(v)
             return v
         if name == 'popleft' or (name == 'pop' and args and ex.conc_int(args[0]) == 0):
-            if P.decide(ln == 0):
+            if P.decide(ln <= 0):
                 ex.raise_('IndexError', 'pop from an empty deque')
             v = items.shape.select(items, mk_int(0))
             ex.list_delete_at(obj, z3.IntVal(0))
@@ -410,30 +518,22 @@ def container_method(ex, obj, name, args, kw):
             return v
         if name == 'clear':
             P.write_field(obj, 'len', mk_int(0))
+            P.write_field(obj, 'cnt', const_map(container_fields(obj.shape.cls)['cnt'], z3.IntVal(0)))
             return SNone()
-        if name == 'remove':
-            x = args[0]
-            k = z3.Int(fresh_name('ridx'))
-            present = ex.contains(obj, x)
-            if not P.decide(present):
-                ex.raise_('ValueError', 'list.remove(x): x not in list')
-            j = z3.Int(fresh_name('j'))
-            P.assume(z3.And(k >= 0, k < ln, ex.eq(items.shape.select(items, SV(IntS, k)), x)))
-            P.assume(z3.ForAll([j], z3.Implies(z3.And(j >= 0, j < k), z3.Not(
-                ex.eq(items.shape.select(items, SV(IntS, j)), x)))))
-            ex.list_delete_at(obj, k)
-            return SNone()
-        if name == 'index':
-            x = args[0]
-            present = ex.contains(obj, x)
-            if not P.decide(present):
-                ex.raise_('ValueError', 'x not in list')
+        if name in ('remove', 'index'):
+            x = coerce(P, args[0], elem)
+            if not P.decide(cnt_get(ex, obj, x).e >= 1):
+                ex.raise_('ValueError', 'list.%s(x): x not in list' % name)
+            # x occurs: let k be its first position
             k = z3.Int(fresh_name('idx'))
             j = z3.Int(fresh_name('j'))
             P.assume(z3.And(k >= 0, k < ln, ex.eq(items.shape.select(items, SV(IntS, k)), x)))
             P.assume(z3.ForAll([j], z3.Implies(z3.And(j >= 0, j < k), z3.Not(
                 ex.eq(items.shape.select(items, SV(IntS, j)), x)))))
-            return SV(IntS, k)
+            if name == 'index':
+                return SV(IntS, k)
+            ex.list_delete_at(obj, k)
+            return SNone()
         if name == 'insert':
             i = as_arith(ex.force(args[0]))
             i = z3.If(i < 0, z3.If(i + ln < 0, z3.IntVal(0), i + ln), z3.If(i > ln, ln, i))
@@ -443,12 +543,15 @@ def container_method(ex, obj, name, args, kw):
             kk = SV(IntS, k)
             P.assume(z3.ForAll([k], z3.Implies(z3.And(k >= 0, k < i), ex.eq(
                 new.shape.select(new, kk), items.shape.select(items, kk)))))
-            P.assume(z3.ForAll([k], z3.Implies(z3.And(k >= i, k < ln), ex.eq(
-                new.shape.select(new, SV(IntS, k + 1)), items.shape.select(items, kk)))))
+            P.assume(z3.ForAll([k], z3.Implies(z3.And(k > i, k < ln + 1), ex.eq(
+                new.shape.select(new, kk), items.shape.select(items, SV(IntS, k - 1))))))
             new = new.shape.store(new, SV(IntS, i), v)
             P.write_field(obj, 'items', new)
             P.write_field(obj, 'len', SV(IntS, ln + 1))
+            cnt_add(ex, obj, v, 1)
             return SNone()
+        if name == 'count':
+            return cnt_get(ex, obj, coerce(P, args[0], elem))
     if kind in ('dict', 'set'):
         kshape = info[1]
         has = P.read_field(obj, 'has')
